@@ -40,6 +40,7 @@ struct Knobs {
         double p_flag_ops = 0.15, p_setvar_ops = 0.1, p_hexit_ops = 0.15, p_qbuf_ops = 0.2, p_probe = 0.1;
         double p_probe_ok = 0.3;
         double p_phases = 0.3;
+        double p_long_run = 0.03;
         int max_svc_gap = 60;
         bool observe = true;
         bool scribble = false;
@@ -724,7 +725,7 @@ struct Gen {
                 bool faults = r.chance(K.p_faults);
                 int phases = r.chance(K.p_phases) ? (int)r.range(2, 3) : 1;
                 int nlines = (int)r.range(K.min_lines, K.max_lines);
-                if (r.chance(0.03))
+                if (r.chance(K.p_long_run))
                         nlines *= 5;
                 for (int ph = 0; ph < phases; ph++) {
                         if (faults) {
@@ -1085,6 +1086,64 @@ struct Gen {
                 op(OP_DRAIN);
         }
 
+        // ------------------------------------------------------------ C17: application threads around the service thread
+        void gen_ops_c17()
+        {
+                p.mutex = true;
+                p.sched = r.next() | 1;
+                p.probe_ok = false;
+                std::vector<int> evs;
+                for (size_t i = 0; i < p.cmds.size(); i++)
+                        if (p.cmds[i].ev)
+                                evs.push_back((int)i);
+                // service thread
+                if (r.chance(0.7))
+                        faults_maybe();
+                int nlines = (int)r.range(0, 5);
+                for (int k = 0; k < nlines; k++) {
+                        in_op(gen_line());
+                        op(OP_SVC, r.range(0, 80));
+                        if (r.chance(0.2))
+                                faults_maybe();
+                }
+                op(OP_SVC, r.range(0, 200));
+                op(OP_DRAIN);
+                // producers
+                int nprod = evs.empty() ? 0 : (int)r.range(1, 8);
+                for (int t = 1; t <= nprod; t++) {
+                        int n = (int)r.range(1, 20);
+                        for (int k = 0; k < n; k++) {
+                                Op o;
+                                o.kind = OP_TRIG;
+                                o.thr = t;
+                                o.a = evs[(size_t)(t - 1 + (int)r.below(2) * nprod) % evs.size()];
+                                o.b = r.coin() ? CT_READ : CT_TEST;
+                                o.c = r.chance(0.3) ? 0 : r.range(0, 80); // yields before the call
+                                p.ops.push_back(o);
+                        }
+                }
+                // observer
+                int nobs = (int)r.range(0, 30);
+                for (int k = 0; k < nobs; k++) {
+                        Op o;
+                        o.kind = OP_QAPI;
+                        o.thr = 9;
+                        o.a = (int64_t)r.below(3);
+                        o.c = r.range(0, 40);
+                        p.ops.push_back(o);
+                }
+                // releaser
+                int nrel = (int)r.range(0, 5);
+                for (int k = 0; k < nrel; k++) {
+                        Op o;
+                        o.kind = OP_HEXIT;
+                        o.thr = 10;
+                        o.a = (int64_t)r.below(2);
+                        o.c = r.range(0, 200);
+                        p.ops.push_back(o);
+                }
+        }
+
         // ------------------------------------------------------------ C10: exhaustive code sequences up to length 6
         static const int C10_TERMS = 10;
         static const uint64_t C10_ENUM = 63 * 10 * 6;
@@ -1271,6 +1330,7 @@ void knobs_for(const std::string &prop, Knobs &K, Rng &r)
                 K.p_badcode = 0.3;
         } else if (prop == "C16") {
                 K.p_mutex = 1.0;
+                K.p_long_run = 0.0;
                 K.min_lines = 1;
                 K.max_lines = 3;
                 K.max_svc_gap = 10;
@@ -1285,6 +1345,15 @@ void knobs_for(const std::string &prop, Knobs &K, Rng &r)
                 K.p_small_cap = 0.6;
                 K.p_large_cap = 0.0;
                 K.p_hexit_ops = 0.3;
+        } else if (prop == "C17") {
+                K.p_mutex = 1.0;
+                K.p_events = 1.0;
+                K.ev_cmds_max = 8;
+                K.max_cmds = 4;
+                K.p_many_cmds = 0;
+                K.p_hold = 0.15;
+                K.p_handler = 0.6;
+                K.p_long_run = 0;
         } else if (prop == "C03") {
                 K.p_small_cap = 0.6;
                 K.p_overlong = 0.25;
@@ -1316,6 +1385,8 @@ Plan gen_plan(const std::string &prop, uint64_t seed, uint64_t idx, int qcap)
                         g.gen_ops_c12();
                 else if (prop == "C20")
                         g.gen_ops_c20();
+                else if (prop == "C17")
+                        g.gen_ops_c17();
                 else
                         g.gen_ops();
                 if (prop == "C10" && idx < gen_enum_count(prop))
